@@ -79,6 +79,16 @@ func runModeTry(procs *[]Process, tryErr bool) (exitNum int) {
 					(*procs)[i].Stderr.Close()
 					GlobalFIDs.Deregister((*procs)[i].Id)
 					(*procs)[i].State.Set(state.AwaitingGC)
+					// a skipped alternative counts as succeeding, so every `||`
+					// alternative that follows it is skipped as well
+					for i+1 < len(*procs) && (*procs)[i+1].OperatorLogicOr {
+						i++
+						(*procs)[i].SetTerminatedState(true)
+						(*procs)[i].Stdout.Close()
+						(*procs)[i].Stderr.Close()
+						GlobalFIDs.Deregister((*procs)[i].Id)
+						(*procs)[i].State.Set(state.AwaitingGC)
+					}
 					continue
 				}
 
@@ -126,6 +136,16 @@ func runModeTryPipe(procs *[]Process, tryPipeErr bool) (exitNum int) {
 				(*procs)[i].Stderr.Close()
 				GlobalFIDs.Deregister((*procs)[i].Id)
 				(*procs)[i].State.Set(state.AwaitingGC)
+				// a skipped alternative counts as succeeding, so every `||`
+				// alternative that follows it is skipped as well
+				for i+1 < len(*procs) && (*procs)[i+1].OperatorLogicOr {
+					i++
+					(*procs)[i].SetTerminatedState(true)
+					(*procs)[i].Stdout.Close()
+					(*procs)[i].Stderr.Close()
+					GlobalFIDs.Deregister((*procs)[i].Id)
+					(*procs)[i].State.Set(state.AwaitingGC)
+				}
 				continue
 			}
 
